@@ -303,6 +303,18 @@ def big_cases(ctx, gen, n):
     return vlib.sample(ctx, out, n)
 
 
+def chain_cases(ctx, gen, layouts):
+    """Every graph with <= 5 nodes on which step 4 of the dominator computation has a chain of deferred vertices to
+    resolve (DomLT!LTDeferralChains, emitted by DomGen_chain5.cfg), each written in `layouts` seeded node orders: the
+    order in which that step visits the blocks is observable on these graphs only."""
+    r = vlib.run_tlc(ctx, "DomGen", "DomGen_chain5.cfg", workers=WORKERS, timeout=3000)
+    vlib.tlc_require_ok(r, "DomGen/DomGen_chain5.cfg")
+    if len(r.cases) < 100:
+        raise Inconclusive("DomGen_chain5 emitted only %d graphs with deferral chains" % len(r.cases))
+    gen["DomGen_chain5.cfg"] = r
+    return [dict(c, shuffle=True) for c in r.cases for _ in range(layouts)]
+
+
 def gen_cases(ctx, cfg, need_cases=True):
     extra = None
     if CAP:
@@ -354,7 +366,7 @@ def run(ctx):
         small = [c for c in r4.cases if c["n"] - (1 if c["recover"] else 0) <= 3]
         four = [c for c in r4.cases if c["n"] - (1 if c["recover"] else 0) == 4]
         chosen = small + vlib.sample(ctx, four, 4000) + vlib.sample(ctx, rs.cases, 1500)
-        chosen += shuffled(vlib.sample(ctx, four, 1200)) + big_cases(ctx, gen, 1500)
+        chosen += shuffled(vlib.sample(ctx, four, 1200)) + big_cases(ctx, gen, 1000) + chain_cases(ctx, gen, 5)
         exhaustive_what = ("all %d rooted ordered digraphs with <= 3 nodes (out-degree <= 2, with/without recover) realised and validated; "
                            "seeded samples of the %d 4-node graphs and the %d one-switch graphs" % (len(small), len(four), len(rs.cases)))
         both = False
@@ -367,7 +379,7 @@ def run(ctx):
         small = [c for c in r5.cases if c["n"] - (1 if c["recover"] else 0) <= 4]
         five = [c for c in r5.cases if c["n"] - (1 if c["recover"] else 0) == 5]
         chosen = small + rs.cases + vlib.sample(ctx, five, 30000) + vlib.sample(ctx, rs4.cases, 10000)
-        chosen += shuffled(vlib.sample(ctx, five, 8000)) + big_cases(ctx, gen, 12000)
+        chosen += shuffled(vlib.sample(ctx, five, 8000)) + big_cases(ctx, gen, 12000) + chain_cases(ctx, gen, 24)
         if CAP:
             chosen = vlib.sample(ctx, chosen, CAP)
         exhaustive_what = ("all %d rooted ordered digraphs with <= 4 nodes (out-degree <= 2, with/without recover) and all %d graphs with <= 3 nodes and one "
